@@ -41,8 +41,9 @@ var (
 	errWrite = errors.New("verif: injected write refusal")
 
 	stallTimeout = 3 * time.Second
-	watchdog     = 10 * time.Second
+	watchdog     = 6 * time.Second
 	timeouts     atomic.Int64 // relay runs that never returned (their goroutines may still spin)
+	knownCase    atomic.Bool  // the case being executed is the witness of a recorded finding (K:<key>)
 	unscheduledTicks atomic.Int64 // runs repeated because the real flush ticker fired outside the schedule
 )
 
@@ -595,7 +596,14 @@ func parseEP(t []string) (epSpec, []string, error) {
 	return e, t[5+k:], nil
 }
 
-func runTCP(toks []string) (string, error) {
+func caseWatchdog(known bool) time.Duration {
+	if known {
+		return 1500 * time.Millisecond
+	}
+	return watchdog
+}
+
+func runTCP(toks []string, known bool) (string, error) {
 	// tcp A <ep> B <ep> s <sched>
 	if len(toks) < 3 || toks[1] != "A" {
 		return "", errors.New("A expected")
@@ -707,8 +715,14 @@ func runTCP(toks []string) (string, error) {
 		return fmt.Sprintf("ret 1 toB %s toA %s wfB %s wfA %s bad %s cwB %s cwA %s cl %s sent %d recv %d serr %s rerr %s",
 			vc.Hex(B.stream), vc.Hex(A.stream), b01(B.wfEnv), b01(A.wfEnv), b01(A.bad || B.bad || A.writerClosed || B.writerClosed), b01(B.cw), b01(A.cw),
 			b01(A.closed && B.closed), r.BytesSent, r.BytesReceived, errKind(r.SendError), errKind(r.ReceiveError)), nil
-	case <-time.After(watchdog):
-		timeouts.Add(1)
+	case <-time.After(caseWatchdog(known)):
+		if !known {
+			timeouts.Add(1)
+		}
+		// nobody will ever end these two: release the blocked goroutines
+		s.stall()
+		A.Close()
+		B.Close()
 		return fmt.Sprintf("timeout stalls %d toB %d toA %d", s.stalls, B.streamLen(), A.streamLen()), nil
 	}
 }
@@ -1366,21 +1380,24 @@ func (r *runner) add(line, cat string) {
 
 func execLine(line string) string {
 	toks := strings.Fields(line)
+	known := false
 	if len(toks) > 0 && strings.HasPrefix(toks[0], "K:") {
 		toks = toks[1:]
+		known = true
 	}
 	if len(toks) == 0 {
 		return "bad-case"
 	}
-	if timeouts.Load() >= 4 {
-		// relay goroutines that never returned keep spinning; more of them would only starve the run
+	if timeouts.Load() >= 1 {
+		// a relay run never returned: its goroutines may spin forever and every further hit would cost a full
+		// watchdog period; the first confirmed one is the failing input, stop here
 		return "skipped-after-timeouts"
 	}
 	var obs string
 	var err error
 	switch toks[0] {
 	case "tcp":
-		obs, err = runTCP(toks)
+		obs, err = runTCP(toks, known)
 	case "udp", "udpv":
 		obs, err = runUDP(toks)
 	case "s5":
